@@ -352,6 +352,43 @@ theorem findMany_spec (s : State) (h : CacheOK s) (d : Int) (ps : List Pair) :
     rw [h1, h4, h2]
 
 
+/-! ### reading never changes the contents (whatever the cache holds) -/
+
+theorem getSide1_content (s : State) : (getSide1 s).1.c = s.c := by
+  unfold getSide1; split <;> rfl
+
+theorem getSide2_content (s : State) : (getSide2 s).1.c = s.c := by
+  unfold getSide2; split <;> rfl
+
+theorem getG2G1_content (s : State) : (getG2G1 s).1.c = s.c := by
+  unfold getG2G1; split
+  · rfl
+  · simp only []; exact getSide1_content s
+
+theorem getG2G2_content (s : State) : (getG2G2 s).1.c = s.c := by
+  unfold getG2G2; split
+  · rfl
+  · simp only []; exact getSide2_content s
+
+theorem findOne_content (s : State) (p : Pair) (d : Int) : (findOne s p d).1.c = s.c := by
+  unfold findOne; simp only []; rw [getG2G2_content, getG2G1_content]
+
+theorem findMany_content (s : State) (d : Int) (ps : List Pair) : (findMany s d ps).1.c = s.c := by
+  induction ps generalizing s with
+  | nil => rfl
+  | cons p r ih => simp only [findMany]; rw [ih, findOne_content]
+
+/-- `announce` never changes the font's contents -/
+theorem announce_content (reg : Destr) (pairs : List Pair) (d : Int) (s : State) (posts : List String) :
+    (announce reg pairs d s posts).1.c = s.c := by
+  induction posts generalizing s with
+  | nil => rfl
+  | cons n rest ih =>
+    simp only [announce]
+    rw [ih, findMany_content]
+    split <;> rfl
+
+
 /-! ## Mutators and the refinement step -/
 
 theorem gSet_spec (s : State) (h : CacheOK s) (n : String) (ms : List String) :
